@@ -116,6 +116,15 @@ def cases(tier, rng):
         k += 1
         out.append("z%d rt %s mon / bind ipc / impostor 0 as=BOGUS / conn 0 / xchg 1 / monitor" % (k, l))
         k += 1
+    # the outcome of a handshake is reported to the monitor the socket has WHEN THE OUTCOME IS KNOWN: monitor() is called
+    # (for the first time, or again) while an inbound connection is in the middle of its handshake
+    for l in ("ROUTER", "PULL", "REP", "PUB"):
+        for tr in ("tcp4", "ipc"):
+            for off in (0, 10, 64):
+                for how in ("garbage", "close", "good"):
+                    for first in ("", " mon"):
+                        out.append("v%d rt %s%s / bind %s / staller 0 off=%d mode=stop / moninstall / finish 0 %s / monitor" % (k, l, first, tr, off, how))
+                        k += 1
     # admission is independent of segmentation (C02 hand-over) and needs no EOF
     for l in LOCALS:
         good = [p for p in NAMES if (l, p) in COMPAT][0]
@@ -130,7 +139,7 @@ _model_cases = {}
 
 
 def compare_filter(line):
-    return not line.startswith(("w", "y", "z"))
+    return not line.startswith(("w", "y", "z", "v"))
 
 
 def model_cases(case_lines):
@@ -141,7 +150,7 @@ def model_cases(case_lines):
         if sp[1] != "sock":
             mc.append(line)
             continue
-        if sp[0].startswith(("u", "w", "y", "z")):
+        if sp[0].startswith(("u", "w", "y", "z", "v")):
             mc.append(line)
             continue
         raw = [t for t in sp if t.startswith("raw=")][0][4:]
@@ -196,6 +205,15 @@ def judge(line, impl_obs, orc):
         return None if impl_obs == want else "socket type name %r -> %s" % (name, impl_obs)
     local = sp[2]
     toks = impl_obs.split()
+    if sp[1] == "rt" and sp[0].startswith("v"):
+        mon = [t for t in toks if t.startswith("mon=")]
+        names = mon[0][4:].split(",") if mon and mon[0] != "mon=-" else []
+        how = line.split(" / ")[4].split()[2]
+        want = "Accepted" if how == "good" else "AcceptFailed"
+        if want not in names:
+            return ("monitor() was called while an inbound handshake was in flight; the handshake then %s, but the monitor the socket "
+                    "has now was told %s" % ("completed" if how == "good" else "failed (%s)" % how, ",".join(names) or "nothing"))
+        return None
     if sp[1] == "rt":
         nimp = line.count("impostor")
         mon = [t for t in toks if t.startswith("mon=")]
